@@ -43,6 +43,8 @@ pub open spec fn upd_walk(b: Seq<u8>) -> Seq<int> { aw_walk(b, upd_start(b), upd
 pub uninterp spec fn attr_decodes(code: u8, flags: u8, body: Seq<u8>, two_byte_as: bool) -> bool;
 /// outcome of PeerCodec::decode_nlri_list as a function of its arguments (it is an associated function without state)
 pub uninterp spec fn nlri_list_ok(family: Family, addpath_rx: bool, is_reach: bool, data: Seq<u8>) -> bool;
+/// ... and the routes it returns when it accepts
+pub uninterp spec fn nlri_list_val(family: Family, addpath_rx: bool, is_reach: bool, data: Seq<u8>) -> Seq<PathNlri>;
 
 /// the k-th attribute of the walk is the first one with its type code (RFC 7606 §3.g: later ones are ignored)
 pub open spec fn aw_first(b: Seq<u8>, w: Seq<int>, k: int) -> bool {
